@@ -143,7 +143,10 @@ where
     /// Return the state with a new constraint
     pub fn with_constraint(mut self, constraint: Rc<dyn Constraint<U, E>>) -> State<U, E> {
         U::with_constraint(&mut self, &constraint);
-        self.cstore_to_mut().push_and_normalize(constraint);
+        for dropped in self.cstore_to_mut().push_and_normalize(constraint) {
+            // A constraint dropped as redundant counts as removed
+            U::take_constraint(&mut self, &dropped);
+        }
         self
     }
 
